@@ -436,6 +436,16 @@ func genWire(tier string) []proto.Item {
 			}
 		}
 	}
+	// SACK: the target answers the probes that reach it with a time-exceeded from its own address (a TTL-decrementing front
+	// end): destination answers like its acknowledgements - the list ends at the lowest, early or late, on every schedule
+	for _, v := range []string{"sack", "sackstrict"} {
+		for _, lat := range [][2]int{{3000, 3000}, {95000, 3000}} {
+			s := proto.Scn{Variant: v, First: 1, Last: 5, Dest: 3, IPIDBase: 700, EchoBase: 71, TimeoutMs: 300, DelayMs: 10, Bound: 1}
+			te := proto.Info(v).TEForm
+			s.Hops = map[int]proto.HopSpec{3: {AtTarget: true, Form: te, DelayUs: lat[0]}, 4: {AtTarget: true, Form: te, DelayUs: lat[1]}, 5: {AtTarget: true, Form: te}}
+			items = append(items, proto.Item{Scn: s, Class: fmt.Sprintf("wire/%s/r1-5/destination-answers-with-time-exceeded", v), Note: map[string]string{"want_len": "3"}})
+		}
+	}
 	// the reply that matters is the one to the LAST probed TTL: the destination is first reached exactly there, or the path
 	// is longer and a router answers it
 	for _, v := range proto.Variants {
